@@ -238,8 +238,14 @@ theorem runPassDir_forest (p : PassT) (c : Ctx) (fuel : Nat) (h : WF c.seg) (hF 
   · cases e; exact hF
   · simp only [] at e
     split at e
-    · exact runPass_forest p (c.withSeg (c.seg.reverseSlots (isMark c c.seg))) fuel (reverse_wf h _) (forest_congr (reverse_treeSame _ _) hF) e
-    · exact runPass_forest p c fuel h hF e
+    · cases e
+    · split at e
+      · cases e
+      · split at e
+        · cases e; exact hF
+        · split at e
+          · exact runPass_forest p (c.withSeg (c.seg.reverseSlots (isMark c c.seg))) fuel (reverse_wf h _) (forest_congr (reverse_treeSame _ _) hF) e
+          · exact runPass_forest p c fuel h hF e
 
 theorem runRange_forest (passes : Array PassT) (c : Ctx) (lo hi fuel : Nat) (h : WF c.seg) (hF : Forest c.seg) {c' : Ctx}
     (e : runRange passes c lo hi fuel = .ok (some c')) : Forest c'.seg := by
